@@ -40,6 +40,10 @@ impl<A: Tracker> PieInternal<A> {
   pub fn resource_state<R: Resource>(&self) -> &impl ResourceState<R> { &self.resource_state }
   pub fn resource_state_mut<R: Resource>(&mut self) -> &mut impl ResourceState<R> { &mut self.resource_state }
 }
+#[cfg(feature = "gohla_pie_verif")]
+impl<A> PieInternal<A> {
+  pub fn verif_dump_store(&self) -> Vec<crate::verif::VerifNode> { self.store.verif_dump() }
+}
 
 /// Internals for [`Session`].
 pub struct SessionInternal<'p> {
